@@ -659,7 +659,16 @@ func TestGoroutineBound(t *testing.T) {
 				"render %d of the history (%s) left %d goroutines more than the bound taken after warm-up; attributed to %s (renderer re-run alone against a discarding writer); history %v",
 				k, describe(c), grew, who, hist)
 		}
+		defer runtime.GOMAXPROCS(runtime.GOMAXPROCS(0))
 		t.Repeat(map[string]func(*rapid.T){
+			// the program changes its processor limit between renders (go test -cpu 4,1,4; a server that is
+			// throttled and released): worker pools must not be started again on the way up
+			"gomaxprocs": func(t *rapid.T) {
+				n := rapid.SampledFrom([]int{1, 2, 4, runtime.NumCPU(), 3, 1}).Draw(t, "procs")
+				runtime.GOMAXPROCS(n)
+				hist = append(hist, fmt.Sprintf("GOMAXPROCS=%d", n))
+				rec.Label("hist:gomaxprocs-changed")
+			},
 			"scripted3": func(*rapid.T) { step(true, "scripted") },
 			"mcu":       func(*rapid.T) { step(true, "mcu") },
 			"mco":       func(*rapid.T) { step(true, "mco") },
